@@ -30,6 +30,13 @@ THOROUGH_CACHE = {}
 LEVEL = {p: 'proof' for p in VERUS_PROPS}
 LEVEL.update({'C05': 'other', 'C16': 'proof', 'C19': 'other'})
 
+EXPLAIN = {
+    'C05': ('determinism: %s; clones: Kani harnesses (bounded period, all stored values symbolic) show derive(Clone) copies every field bit-exactly '
+            'into a distinct allocation, that feeding the clone leaves the original untouched, and that a new instance created after another one was used and '
+            'dropped starts from the documented initial state. Thread interleavings are not expressible in Verus/Kani and are not covered.') %
+           'every verified next() returns a spec function of (abstract state, input), so no hidden global / thread-local / time / randomness can influence it '
+           '(such a body cannot be given the functional postcondition: the obligation fails or the construct is rejected, never a pass)',
+}
 IDEAL = ('f64 arithmetic is idealised as exact real arithmetic on finite values (prelude axioms T2): no rounding, overflow to infinity '
          'or underflow; the tau(t) tolerances of the property statement are therefore not decided, the exact-arithmetic identity is')
 
@@ -95,8 +102,8 @@ def check(pid, tier):
     }
     cov['checker_cmd'] = cov.get('checker_cmd', 'python3 check.py %s --tier %s' % (pid, tier))
     cov.setdefault('trusted_base', [])
-    if ev['level'] == 'other':
-        cov.setdefault('explanation', '')
+    if ev['level'] == 'other' and not cov.get('explanation'):
+        cov['explanation'] = EXPLAIN.get(pid, 'obligations of this property discharged by the lanes listed in coverage.lanes')
     cov['undecided'] = undecided
     os.makedirs(ck.EVID, exist_ok=True)
     json.dump(ev, open(os.path.join(ck.EVID, pid + '.json'), 'w'), indent=1)
